@@ -5,6 +5,7 @@ Scenario:
   horizon_min   number of virtual minutes to run
   sources       list of source specs: {'kind': 'list'|'label', 'schedules': [sched specs],
                                        'fail_polls': [poll numbers whose get_schedules raises],
+                                       'list_latency_us': duration of get_schedules(),
                                        'edits': [[poll number, 'add'|'remove', sched spec or tag]]}
   sched spec    {'tag': str, 'cron': expr} | {'tag': str, 'at_us': offset from base minute in microseconds}
   latency_us    duration of broker.kick()
@@ -142,6 +143,9 @@ class SchedWorld(World):
                 self.calls += 1
                 world.polls.append((self.idx, n, world.t_abs()))
                 world.emit("POLL", self.idx, n, world.t_abs())
+                if self.spec.get("list_latency_us"):
+                    await asyncio.sleep(self.spec["list_latency_us"] / 1e6)
+                    world.emit("POLL_DONE", self.idx, n, world.t_abs())
                 for (pn, op, what) in self.spec.get("edits", []):
                     if pn == n:
                         if op == "add":
